@@ -72,7 +72,7 @@ def check_table(job):
     t = W.samples_table(rows, variant=variant)
     out = {'idx': idx, 'labels': [], 'obs': []}
     try:
-        res = W.process(t, bf)
+        res = W.process(t, bf, hdr=(idx // 9 + idx) % 3)       # (the beads table's MEF headers in one of three accepted spellings)
     except Exception as e:  # noqa
         out['labels'].append(('aborted/' + type(e).__name__, -1))
         out['obs'] = ['batch aborted: %s: %s' % (type(e).__name__, str(e)[:100])]
